@@ -2,7 +2,7 @@
 import ast
 
 from .. import handrules, serial
-from ..core import path_facts, U, bind_call, paths_of, positional_params
+from ..core import AnalysisError, path_facts, U, bind_call, paths_of, positional_params
 from ..registries import handlers
 
 TITLE = "A quantized tensor's reported metadata always matches what it holds"
@@ -14,6 +14,7 @@ RULES = {
     "C06.R4": "moves: QBytes _to_copy keeps the payload dtype and converts the scale only; QBits _to_copy refuses dtype changes, moves payload/zero-point without dtype and rebuilds through create(); detach keeps the class",
     "C06.R5": "flatten/unflatten agreement: key sets, length assertions, constructor argument mapping",
     "C06.R6": "in move/copy handlers the payload never meets arithmetic",
+    "C06.R10": "sub-byte tensors: the payload of a QBitsTensor is grouped (and packed), so its shape is not the tensor's - no constructor or factory call of the QBits classes takes its size or stride argument from the payload it passes",
     "C06.R9": "freshly quantized tensors: the quantizers only accept a scale laid out along the axis they record (per-axis: one extent, equal to the base's, on that axis; per-tensor: a 0-dim scale, so the payload keeps the base's shape) - the acceptance guards of C14.R1, plus the 0-dim clause",
     "C06.R8": "scale/axis agreement: a handler that changes the payload geometry keeps the scale only when it is 0-dim (per-tensor); scalar rescaling only for operands that do not broadcast (is_scalar definition)",
     "C06.R7": "quantizers capture size()/stride() of the source before any rebinding and pass them to the constructor",
@@ -47,6 +48,7 @@ def run(chk):
         chk.bad("C06.R5", f"{ci_.mod.rel}:{line_}", ci_.name, "reader inherited from a base that rebuilds the base class", f"{ci_.name} has its own constructor but inherits __tensor_unflatten__ from {base_.name}, which builds {names_}: a flattened {ci_.name} comes back as a {base_.name} wrapping the subclass's fields",
                 "any tensor of that class taken through __tensor_flatten__ / __tensor_unflatten__ (torch.compile, FakeTensor tracing, state_dict helpers)")
     quantizer_geometry(chk)
+    qbits_geometry(chk)
     if chk.pid == "C06":
         from ..report import AliasedCheck
         from . import c14
@@ -263,6 +265,57 @@ def quantizer_geometry(chk):
             sz, st = U(f["size"]), U(f["stride"])
             chk.require("C06.R7", site, sz in (f"{base}.size()", f"{base}.shape") and st == f"{base}.stride()", f"{cname}.forward passes size `{sz}` and stride `{st}` of the un-rebound source `{base}`", f"{cname}.forward", "quantizer geometry", "grouped quantization (the source is reshaped before the payload is computed): the result reports the grouped shape")
     chk.floor("C06.R7", n, 2, "quantizer return paths")
+
+
+def qbits_geometry(chk, rule="C06.R10"):
+    """Every call that builds a QBitsTensor / AWQBitsTensor (constructor, `create` factory) binds (size, stride, data): the size and stride expressions,
+    with local names expanded along the path, must not be taken from the data expression."""
+    from ..core import bind_call
+    repo = chk.repo
+    qb = repo.cls("QBitsTensor")
+    classes = {c.name: c for c in [qb] + repo.subclasses(qb)}
+    create = qb.own("create")
+    n = 0
+    for mi in repo.modules.values():
+        if not mi.rel.startswith("optimum/"):
+            continue
+        for fn in [x for x in ast.walk(mi.tree) if isinstance(x, ast.FunctionDef)]:
+            if not any(isinstance(c, ast.Call) and (U(c.func) in classes or U(c.func) in tuple(f"{k}.create" for k in classes)) for c in ast.walk(fn)):
+                continue
+            seen = set()
+            try:
+                ps = paths_of(fn)
+            except AnalysisError as e:
+                chk.unknown(rule, f"{mi.rel}:{fn.lineno}", f"{fn.name}: paths not enumerated ({e})")
+                continue
+            for p in ps:
+                exprs = [ef[1] for ef in p.effects if ef[0] == "expr"] + [ef[3] for ef in p.effects if ef[0] == "store"] + ([p.end[1]] if p.end[0] == "return" and p.end[1] is not None else [])
+                for e in exprs:
+                    for c in [x for x in ast.walk(e) if isinstance(x, ast.Call)]:
+                        name = U(c.func)
+                        target = None
+                        if name in classes:
+                            init = classes[name].own("__init__") or qb.own("__init__")
+                            target, skip = init, 1
+                        elif name.endswith(".create") and name[:-7] in classes and create is not None:
+                            target, skip = create, 0
+                        if target is None:
+                            continue
+                        b = bind_call(target, c, skip_first=skip)
+                        if b is None or not all(k in b for k in ("size", "stride", "data")):
+                            continue
+                        key = (c.lineno, U(b["size"]), U(b["stride"]), U(b["data"]))
+                        if key in seen:
+                            continue
+                        seen.add(key)
+                        n += 1
+                        d = U(b["data"])
+                        bad = [k for k in ("size", "stride") if d and d not in ("data", "None") and (U(b[k]).startswith(d + ".") or U(b[k]).startswith(d + "["))]
+                        inner = [k for k in ("size", "stride") if "._data" in U(b[k])]
+                        chk.require(rule, f"{mi.rel}:{c.lineno}", not bad and not inner, f"{fn.name}: {name}(size={U(b['size'])[:40]}, stride={U(b['stride'])[:40]}, data={d[:40]}) takes its geometry from the tensor, not from the payload",
+                                    fn.name, f"{'/'.join(bad or inner)} taken from the grouped payload", "a group-wise quantized qint4 Linear weight reloaded from a state_dict (optimize() rebuilds it): it reports stride (group_size, 1), the state_dict "
+                                    "saved again differs (`weight.stride`), and a group-wise Conv2d weight cannot be rebuilt at all (4 sizes, 2 strides)")
+    chk.floor(rule, n, 5, "QBits constructor / factory call sites")
 
 
 def scalar_scale_clause(chk):
